@@ -166,11 +166,12 @@ def fw(gens, tags, mech=None, **kw):
     return d
 
 
-def fw_monitor_stage(pid, tier, seed, ctx, gens):
-    """run framework generators through harness and driver and return (cases, [(key, replay text)]) for the
-    monitor lines of `pid` only (no correspondence tags): used by checks whose main stream is not fw-gen"""
+def fw_monitor_stage(pid, tier, seed, ctx, gens, tags=()):
+    """run framework generators through harness and driver and return (cases, [(key, replay text)], [disagreements])
+    for the monitor lines of `pid` and the correspondence tags in `tags`: used by checks whose main stream is
+    not fw-gen"""
     sh = ctx["sh"]
-    total, mons = 0, []
+    total, mons, dis = 0, [], []
     for kind, nq, nt in gens:
         n = pick(tier, nq, nt)
         rc, text = sh([ctx["HBIN"], "fw-gen", "--kind", kind, "--seed", str(seed), "--cases", str(n)], timeout=7200)
@@ -184,6 +185,10 @@ def fw_monitor_stage(pid, tier, seed, ctx, gens):
             ws = line.split()
             if ws[:1] == ["case"]:
                 total += 1
+                if len(ws) > 4 and ws[3] == "DIFF" and set(ws[4].replace("tags=", "").split(",")) & set(tags):
+                    if blocks is None:
+                        blocks = split_cases(text)
+                    dis.append(f"{ws[1]} {ws[4]}\n" + inputs_only(blocks.get(ws[1], "")))
             elif len(ws) > 3 and ws[0] == "mon" and ws[1] == pid and ws[2] == "FAIL":
                 if blocks is None:
                     blocks = split_cases(text)
@@ -193,7 +198,7 @@ def fw_monitor_stage(pid, tier, seed, ctx, gens):
     uniq = {}
     for k, t in mons:
         uniq.setdefault(k, t)
-    return total, list(uniq.items())
+    return total, list(uniq.items()), dis
 
 
 def c01_run(gens, tags, mech):
